@@ -308,6 +308,8 @@ package json
 //@   ensures num_acc(q) && q != NUM_XZ && numexp(b.data, len(b.data)) <= 1099511627776 ==> result1 == nil
 //@   ensures result1 == nil ==> deceq(natval(result0.nat.data, len(result0.nat.data)), result0.exp, mantval(b.data, len(b.data)), textscale(b.data, len(b.data)))
 //@   ensures result1 == nil ==> result0.neg == (b.data[0] == 45 && len(result0.nat.data) != 0)
+//@   defines (result1 == nil) == numparses(b.data, len(b.data))
+//@   defines result1 == nil ==> result0.exp == normfrac(b.data, len(b.data))
 //@   no_panic
 //@   at call:Scan use unfold_mantcount(b.data, 0); unfold_mantstop(b.data, 0)
 
@@ -346,3 +348,104 @@ package json
 //@   let il := len(n.nat.data) - n.exp
 //@   ensures result == (n.neg ? "-" : "") + (il == 0 ? "0" : str(n.nat.data[:il])) + (n.exp != 0 ? "." + str(n.nat.data[il:]) : "")
 //@   no_panic
+
+// ---- type guessing on a JSON scalar (C17, C20): same rule as schema.typeGuesser ------------------------------
+
+//@ pred hasByteBefore(d []byte, n Int, c Int) := !(forall j :: 0 <= j && j < n ==> d[j] != c)
+//@ pred dotNoExp(d []byte) := hasByteBefore(d, len(d), 46) && !hasByteBefore(d, len(d), 101) && !hasByteBefore(d, len(d), 69)
+//- integer: a number text whose normal form has no fraction digits, unless it is written with a '.' and no exponent
+//@ pred textIsInteger(d []byte) := !dotNoExp(d) && numparses(d, len(d)) && normfrac(d, len(d)) == 0
+//@ pred textIsFloat(d []byte) := dotNoExp(d) || (numparses(d, len(d)) && normfrac(d, len(d)) != 0)
+
+//@ pred guessDataOK(v GuessData) := len(v.bytes.data) <= 1099511627776 && (v.number != nil ==> wfNumber(*v.number) && numparses(v.bytes.data, len(v.bytes.data)) && v.number.exp == normfrac(v.bytes.data, len(v.bytes.data)))
+//@ pred guessOK(g *GuessData) := g != nil && guessDataOK(*g)
+
+//@ func Guess
+//@   property C17 C20
+//@   requires len(b.data) <= 1099511627776
+//@   ensures fresh(result) && guessOK(result) && result.bytes == b && result.number == nil
+//@   no_panic
+
+//@ func (*GuessData).Number
+//@   property C17 C20 C02
+//@   requires guessOK(g)
+//@   modifies g.number
+//@   ensures guessOK(g) && g.bytes == old(g.bytes)
+//@   ensures (result1 == nil) == numparses(g.bytes.data, len(g.bytes.data))
+//@   ensures result1 == nil ==> result0 != nil && result0 == g.number
+//@   ensures result1 != nil ==> result0 == nil
+//@   no_panic
+
+//@ func (*GuessData).IsInteger
+//@   property C17 C20 C02
+//@   requires guessOK(g)
+//@   modifies g.number
+//@   ensures guessOK(g) && g.bytes == old(g.bytes)
+//@   ensures result == textIsInteger(g.bytes.data)
+//@   no_panic
+//@   let d := g.bytes.data
+//@   loop#1 invariant -1 <= rangeindex && rangeindex < len(d)
+//@   loop#1 invariant dot == hasByteBefore(d, rangeindex + 1, 46)
+//@   loop#1 invariant exp == (hasByteBefore(d, rangeindex + 1, 101) || hasByteBefore(d, rangeindex + 1, 69))
+//@   loop#1 decreases len(d) - rangeindex
+
+//@ func (*GuessData).IsFloat
+//@   property C17 C20 C02
+//@   requires guessOK(g)
+//@   modifies g.number
+//@   ensures guessOK(g) && g.bytes == old(g.bytes)
+//@   ensures result == textIsFloat(g.bytes.data)
+//@   no_panic
+//@   let d := g.bytes.data
+//@   loop#1 invariant -1 <= rangeindex && rangeindex < len(d)
+//@   loop#1 invariant dot == hasByteBefore(d, rangeindex + 1, 46)
+//@   loop#1 invariant exp == (hasByteBefore(d, rangeindex + 1, 101) || hasByteBefore(d, rangeindex + 1, 69))
+//@   loop#1 decreases len(d) - rangeindex
+
+//@ pred textIsString(d []byte) := len(d) >= 2 && d[0] == 34 && d[len(d)-1] == 34
+//@ pred textIsBoolean(d []byte) := eqlit(d, "true") || eqlit(d, "false")
+
+//@ func (GuessData).IsNull
+//@   property C17 C20
+//@   ensures result == eqlit(g.bytes.data, "null")
+//@   no_panic
+
+//@ func (GuessData).IsBoolean
+//@   property C17 C20
+//@   ensures result == textIsBoolean(g.bytes.data)
+//@   no_panic
+
+//@ func (GuessData).IsString
+//@   property C17 C20
+//@   ensures result == textIsString(g.bytes.data)
+//@   no_panic
+
+//@ func (GuessData).IsObject
+//@   property C17 C20
+//@   ensures result == eqlit(g.bytes.data, "{")
+//@   no_panic
+
+//@ func (GuessData).IsArray
+//@   property C17 C20
+//@   ensures result == eqlit(g.bytes.data, "[")
+//@   no_panic
+
+//@ func (GuessData).IsShortcut
+//@   property C17 C20
+//@   ensures result == isUserTypeNameText(g.bytes.data)
+//@   no_panic
+
+//- the classification is a function of the text alone; the order of the tests matters only where two tests overlap
+//@ fun literalTypeOf(d []byte) Int := textIsString(d) ? 3 : (textIsBoolean(d) ? 6 : (eqlit(d, "null") ? 7 : (textIsInteger(d) ? 4 : (textIsFloat(d) ? 5 : (isUserTypeNameText(d) ? 8 : 0)))))
+
+//@ func (GuessData).LiteralJsonType
+//@   property C17 C20
+//@   requires guessDataOK(g)
+//@   panics when literalTypeOf(g.bytes.data) == 0
+//@   ensures result == literalTypeOf(g.bytes.data)
+
+//@ func (GuessData).JsonType
+//@   property C17 C20
+//@   requires guessDataOK(g)
+//@   panics when !eqlit(g.bytes.data, "{") && !eqlit(g.bytes.data, "[") && literalTypeOf(g.bytes.data) == 0
+//@   ensures result == (eqlit(g.bytes.data, "{") ? 1 : (eqlit(g.bytes.data, "[") ? 2 : literalTypeOf(g.bytes.data)))
